@@ -151,7 +151,15 @@ impl Cmd {
 fn rand_cmd(rng: &mut Rng, allow_quit: bool) -> Cmd {
     match rng.below(if allow_quit { 14 } else { 13 }) {
         0..=6 => Cmd::Next(rng.pick(&["n", "next", "N", "NEXT", "  n  ", "Next", "\tnext"]).to_string()),
-        7 | 8 | 9 => Cmd::Print(rng.pick(&["print reg", "print flags", "print mem 0 -> 20", "PRINT REG", "print mem 65530 : 8", "print mem : 3"]).to_string()),
+        7 | 8 | 9 => Cmd::Print(
+            rng.pick(&[
+                "print reg", "print flags", "print mem 0 -> 20", "PRINT REG", "print mem 65530 : 8", "print mem : 3",
+                // ranges at / across the end of memory and backwards: answered or refused, never advancing, never aborting
+                "print mem 1048575 : 0", "print mem 1048575 : 1", "print mem 1048574 : 2", "print mem 1048560 : 15", "print mem 0 : 1048576", "print mem : 1048576",
+                "print mem 1048575 -> 1048575", "print mem 1048570 -> 1048580", "print mem 1048576 -> 1048580", "print mem 9 -> 2", "print mem 0x10 -> 0x20",
+            ])
+            .to_string(),
+        ),
         10 | 11 | 12 => Cmd::Garbage(rng.pick(&["", "x", "nn", "nextt", "quit now", "print", "step", "print mem", "\u{e9}", "n n", "0", "help"]).to_string()),
         _ => Cmd::Quit(rng.pick(&["q", "quit", "Q", "QUIT", " quit "]).to_string()),
     }
